@@ -91,6 +91,12 @@ var c15Templates = []c15Tmpl{
 	{text: "§1 := []func(int) int{func(x int) int { return x + 1 }, func(x int) int { return x * ¤ }}\nfor _, §2 := range §1 {\n\tout += SC.Itoa(§2(a))\n}", n: 2},
 	{text: "§1 := map[D.Box]*D.Box{{N: 1}: {N: a}}\nfor §2, §3 := range §1 {\n\tout += §2.Show() + §3.Show()\n}", n: 3},
 	{text: "var §1 D.Box\n§1.N = a\n§2 := &§1\n§2.N += ¤\nout += §1.Show() + SC.Quote(ST.ToUpper(\"q\"))", n: 2},
+	// locals declared inside the clauses of a type switch, next to the switch's own variable
+	{text: "for _, §2 := range []interface{}{a, \"s\", 2.5} {\n\tswitch §1 := §2.(type) {\n\tcase int:\n\t\t§3 := §1 + ¤\n\t\tout += SC.Itoa(§3) + SC.Itoa(§1)\n\tcase string:\n\t\tif §3 := ST.ToUpper(§1); §3 != §1 {\n\t\t\tout += §3 + §1\n\t\t}\n\tdefault:\n\t\t§3 := F.Sprint(§1)\n\t\tout += §3\n\t}\n}", n: 3},
+	// nested closures capturing locals of enclosing scopes
+	{text: "§1 := a\nfunc() {\n\t§2 := §1 + ¤\n\tfunc() {\n\t\t§3 := §2 + §1\n\t\tout += SC.Itoa(§3)\n\t}()\n\tout += SC.Itoa(§2)\n}()\nout += SC.Itoa(§1)", n: 3},
+	// a local declared after a use of the package-level name of the same spelling would change meaning; here: sibling blocks
+	{text: "{\n\t§1 := a + 1\n\tout += SC.Itoa(§1)\n}\n{\n\t§2 := a + 2\n\t{\n\t\t§1 := §2 * ¤\n\t\tout += SC.Itoa(§1)\n\t}\n\tout += SC.Itoa(§2)\n}", n: 2},
 }
 
 var c15LocalPool = []string{"fmt", "strconv", "strings", "errors", "dep", "dep2", "fmt2", "strconv2", "strings2", "errors2", "dep3", "strconv3", "err", "level", "counter", "x", "y", "n", "i", "v", "s", "rec", "join", "wire", "fmt_2"}
@@ -219,9 +225,36 @@ func genC15() *rapid.Generator[*C15Case] {
 				for l := range labels {
 					used[l] = true
 				}
+				// sometimes two locals of one statement are a package name and the
+				// very name a renamer would pick for it (fmt and fmt2)
+				forced := map[int]string{}
+				if tm.n >= 2 && rapid.IntRange(0, 99).Draw(t, "collisionpair") < 30 {
+					base := rapid.SampledFrom([]string{"fmt", "strconv", "strings", "errors", "dep"}).Draw(t, "pairbase")
+					if !used[base] && !used[base+"2"] && !importNames[base] && !importNames[base+"2"] {
+						slots := rapid.Permutation(seqInts(tm.n)).Draw(t, "pairslots")
+						forced[slots[0]], forced[slots[1]] = base, base+"2"
+					}
+				}
 				for k := 0; k < tm.n; k++ {
+					if name, ok := forced[k]; ok {
+						used[name] = true
+						if ti == 3 && k == 0 || ti == 17 && k == 1 {
+							labels[name] = true
+						}
+						st.Names = append(st.Names, name)
+						continue
+					}
 					var free []string
 					for _, cand := range c15LocalPool {
+						skip := false
+						for _, fv := range forced {
+							if fv == cand {
+								skip = true
+							}
+						}
+						if skip {
+							continue
+						}
 						if !used[cand] && !importNames[cand] {
 							free = append(free, cand)
 						}
@@ -242,6 +275,14 @@ func genC15() *rapid.Generator[*C15Case] {
 		}
 		return cs
 	})
+}
+
+func seqInts(n int) []int {
+	out := make([]int, n)
+	for i := range out {
+		out[i] = i
+	}
+	return out
 }
 
 func (cs *C15Case) importName(k string) string {
